@@ -52,6 +52,11 @@ impl SchedDb {
         self.ctl.trace.lock().unwrap().push((tid, kind.to_string(), detail));
     }
 
+    /// a scheduling point that is not a storage call: lets the schedule decide WHEN a task issues its next request
+    pub async fn pause(&self) {
+        self.gate("pause", String::new()).await;
+    }
+
     pub async fn snapshot(&self) -> Vec<DbRecord> {
         let mut v = self.inner.batch_get_all_direct().await.unwrap_or_default();
         v.sort();
@@ -185,6 +190,80 @@ pub fn preemptions(chosen: &[usize], enabled: &[Vec<usize>]) -> usize {
     let mut n = 0;
     for i in 1..chosen.len() {
         if chosen[i] != chosen[i - 1] && enabled[i].contains(&chosen[i - 1]) {
+            n += 1;
+        }
+    }
+    n
+}
+
+
+/// `drive` with a DAEMON task (the change poller): a task that never finishes and sleeps on the (paused) tokio
+/// clock between its storage calls.  Before every scheduling decision the clock is advanced by `period`, so the
+/// daemon is always either waiting at a storage call or blocked on a lock; it is an ordinary choice for the
+/// schedule, but by default (no preference given) it only runs when nothing else can.  The run ends when every
+/// other task has finished and the daemon has been granted `tail` further calls.
+pub async fn drive_daemon(
+    ctl: &Arc<Ctl>,
+    ntasks: usize,
+    daemon: usize,
+    period: std::time::Duration,
+    tail: usize,
+    prefs: &[usize],
+    finished: &dyn Fn(usize) -> bool,
+) -> Vec<Choice> {
+    let mut choices: Vec<Choice> = vec![];
+    let mut current: Option<usize> = None;
+    let mut tail_left = tail;
+    loop {
+        tokio::time::advance(period + std::time::Duration::from_millis(1)).await;
+        let mut spins = 0;
+        loop {
+            tokio::task::yield_now().await;
+            let waiting = ctl.waiting.lock().unwrap();
+            let settled = (0..ntasks).all(|i| finished(i) || waiting.contains_key(&i));
+            drop(waiting);
+            spins += 1;
+            // tasks blocked on the cache lock never "settle": a few hundred rounds are ample for the rest
+            if settled || spins > 400 {
+                break;
+            }
+        }
+        let enabled: Vec<usize> = ctl.waiting.lock().unwrap().keys().cloned().collect();
+        if enabled.is_empty() {
+            break;
+        }
+        let others_done = (0..ntasks).filter(|i| *i != daemon).all(finished);
+        if others_done {
+            if tail_left == 0 || !enabled.contains(&daemon) {
+                break;
+            }
+            tail_left -= 1;
+        }
+        let step = choices.len();
+        let non_daemon: Vec<usize> = enabled.iter().cloned().filter(|i| *i != daemon).collect();
+        let chosen = match prefs.get(step) {
+            Some(p) if enabled.contains(p) => *p,
+            _ => match current {
+                Some(c) if c != daemon && enabled.contains(&c) => c,
+                _ => non_daemon.first().cloned().unwrap_or(daemon),
+            },
+        };
+        current = Some(chosen);
+        let (_, n) = ctl.waiting.lock().unwrap().remove(&chosen).unwrap();
+        n.notify_one();
+        choices.push(Choice { chosen, enabled });
+        if choices.len() > 2_000 {
+            break;
+        }
+    }
+    choices
+}
+
+/// preemptions, not counting switches away from the daemon (it is always enabled)
+pub fn preemptions_daemon(chosen: &[usize], enabled: &[Vec<usize>], daemon: usize) -> usize {
+    let mut n = 0;
+    for i in 1..chosen.len() {
+        if chosen[i] != chosen[i - 1] && chosen[i - 1] != daemon && enabled[i].contains(&chosen[i - 1]) {
             n += 1;
         }
     }
